@@ -69,8 +69,8 @@ IndInv ==
   /\ cfg.maxEps \in CMaxEpsSet \cup {0}
   /\ pc = "config" => /\ collected = 0 /\ released = 0 /\ ts = 0 /\ eps = 0 /\ window = <<>>
                       /\ minRet = C!Big /\ maxEps = 1
-  /\ pc # "config" => cfg.maxEps \in CMaxEpsSet
-  /\ pc = "collect" => out = C!NoOut
+  /\ pc # "config" => cfg.maxEps \in CMaxEpsSet /\ maxEps \in {1, cfg.maxEps}   \* the window size never shrinks
+  /\ pc # "release" => out = C!NoOut
   /\ C!Conservation
   /\ Len(window) <= maxEps
   (* while the window is open the counters describe it ... *)
